@@ -26,7 +26,9 @@ storage_properties_copy(struct StorageProperties* dst, const struct StoragePrope
 
 #include "storage/trash.c"
 
+#ifndef K
 #define K 4
+#endif
 static struct Trash* g_t;
 static uint64_t g_iframe0;
 static unsigned g_nframes;
